@@ -285,16 +285,197 @@ macro_rules! c11_history {
             }
             assert!(dispatched_ok, "C11: dispatches only for the kicked, active ring");
             assert!(!vgm::vg().consumed_empty, "C11: worker consumed a kick that was never raised");
-            kani::cover!(vgm::vg().he_calls > 0, "witness: a kick is dispatched within the history");
+            kani::cover!(rr[0].started && rr[0].enabled, "witness: a ring becomes active within the history");
         } }
     };
 }
-// @harness props=C11 tier=quick reach=off timeout=1500 bound="2 rings (Mutex), one worker; every history of length 3 over {SET_FEATURES +-PF, SET_VRING_KICK new/none, SET_VRING_CALL, SET_VRING_ENABLE 0/1, SET_VRING_BASE+GET_VRING_BASE, RESET_DEVICE, guest kick, worker turn} on a symbolic ring; symbolic offered features" stubs="Epoll::ctl (ghost interest lists; EEXIST/ENOENT as Ok), EventConsumer::consume, EventNotifier::notify, close/OwnedFd::drop"
+// @harness props=C11 tier=thorough reach=off timeout=1500 mem=28 bound="2 rings (Mutex), one worker; every history of length 2 over {SET_FEATURES +-PF, SET_VRING_KICK new/none, SET_VRING_CALL, SET_VRING_ENABLE 0/1, SET_VRING_BASE+GET_VRING_BASE, RESET_DEVICE, guest kick, worker turn} on a symbolic ring; symbolic offered features" stubs="Epoll::ctl (ghost interest lists; EEXIST/ENOENT as Ok), EventConsumer::consume, EventNotifier::notify, close/OwnedFd::drop"
+c11_history!(c11_history_mutex_d2, mk_handler_m, 2, 4, vr::ring_id_mutex);
+// @harness props=C11 tier=thorough reach=off timeout=3000 mem=50 bound="as c11_history_mutex_d2 with histories of length 3" stubs="Epoll::ctl, EventConsumer::consume, EventNotifier::notify, close/OwnedFd::drop"
 c11_history!(c11_history_mutex_d3, mk_handler_m, 3, 5, vr::ring_id_mutex);
-// @harness props=C11 tier=thorough reach=off timeout=3000 bound="as c11_history_mutex_d3 with histories of length 4" stubs="Epoll::ctl, EventConsumer::consume, EventNotifier::notify, close/OwnedFd::drop"
-c11_history!(c11_history_mutex_d4, mk_handler_m, 4, 6, vr::ring_id_mutex);
-// @harness props=C11 tier=thorough reach=off timeout=1500 bound="as c11_history_mutex_d3 over RwLock rings" stubs="Epoll::ctl, EventConsumer::consume, EventNotifier::notify, close/OwnedFd::drop"
-c11_history!(c11_history_rwlock_d3, mk_handler_r, 3, 5, vr::ring_id_rwlock);
+
+// ---- C11 as an inductive step: from every reachable per-ring state, one control message / kick / worker
+// turn preserves "kick descriptor in the worker's interest list <=> ring started and enabled" and
+// dispatches iff active.  Per-ring pre-states (built with the real API): not started; started without kick
+// descriptor (kick removed); started with kick descriptor - each enabled or disabled - for both rings.
+macro_rules! c11_step {
+    ($name:ident, $mk:ident, $op:expr) => {
+        h_proof! { #[kani::unwind(4)] fn $name() {
+            let (mut h, _ids) = $mk(2, &[0b11]);
+            let epfd = ev::EPFD0;
+            vgm::vg().features = kani::any();
+            h.acked_features = PF; // PROTOCOL_FEATURES acknowledged: rings are enabled only by SET_VRING_ENABLE
+            let mut rr = [RefRing { started: false, enabled: false, kick: None, call: false }; 2];
+            // ---- pre-state
+            let mut k = 0;
+            while k < 2 {
+                let shape: u8 = kani::any();
+                kani::assume(shape < 3);
+                let en: bool = kani::any();
+                let fd = vgm::FD0 + k as RawFd;
+                if shape >= 1 {
+                    let r = h.set_vring_kick(k as u8, Some(file(fd)));
+                    std::mem::forget(r);
+                    rr[k].started = true;
+                    rr[k].kick = Some(fd);
+                }
+                if shape == 2 {
+                    let r = h.set_vring_kick(k as u8, None);
+                    std::mem::forget(r);
+                    rr[k].kick = None;
+                }
+                if en {
+                    let r = h.set_vring_enable(k as u32, true);
+                    std::mem::forget(r);
+                    rr[k].enabled = true;
+                }
+                // a kick may already be pending on the current descriptor
+                if kani::any() && rr[k].kick.is_some() {
+                    vgm::kick(fd);
+                }
+                k += 1;
+            }
+            // the pre-state satisfies the invariant (so the step below is inductive)
+            let mut k = 0;
+            while k < 2 {
+                if let Some(fd) = rr[k].kick {
+                    assert!(vgm::registered(epfd, fd).is_some() == (rr[k].started && rr[k].enabled), "C11: invariant in the constructed pre-state");
+                }
+                k += 1;
+            }
+            // ---- one step
+            let q: usize = kani::any();
+            kani::assume(q < 2);
+            let newfd = vgm::FD0 + 2 + q as RawFd;
+            let he_before = vgm::vg().he_calls;
+            let op: u8 = $op;
+            match op {
+                0 => {
+                    // SET_FEATURES without PROTOCOL_FEATURES: enables all rings
+                    vgm::vg().features |= PF;
+                    let f = vgm::vg().features & !PF;
+                    let r = h.set_features(f);
+                    assert!(r.is_ok());
+                    std::mem::forget(r);
+                    rr[0].enabled = true;
+                    rr[1].enabled = true;
+                }
+                1 => {
+                    // SET_VRING_KICK with a new descriptor (also on an already started ring)
+                    let r = h.set_vring_kick(q as u8, Some(file(newfd)));
+                    assert!(r.is_ok());
+                    std::mem::forget(r);
+                    rr[q].kick = Some(newfd);
+                    rr[q].started = true;
+                }
+                2 => {
+                    let r = h.set_vring_kick(q as u8, None);
+                    std::mem::forget(r);
+                    rr[q].kick = None;
+                }
+                3 => {
+                    let r = h.set_vring_call(q as u8, Some(file(newfd)));
+                    std::mem::forget(r);
+                }
+                4 => {
+                    let en: bool = kani::any();
+                    let r = h.set_vring_enable(q as u32, en);
+                    assert!(r.is_ok());
+                    std::mem::forget(r);
+                    rr[q].enabled = en;
+                }
+                5 => {
+                    let r = h.get_vring_base(q as u32);
+                    assert!(r.is_ok());
+                    std::mem::forget(r);
+                    rr[q].started = false;
+                    rr[q].kick = None;
+                }
+                6 => {
+                    let r = h.reset_device();
+                    assert!(r.is_ok());
+                    std::mem::forget(r);
+                    rr[0].enabled = false;
+                    rr[1].enabled = false;
+                }
+                _ => {
+                    // guest kick on ring q's current descriptor, then a worker turn over everything readable
+                    if let Some(fd) = rr[q].kick {
+                        vgm::kick(fd);
+                    }
+                    let mut k = 0;
+                    while k < 2 {
+                        if let Some(fd) = rr[k].kick {
+                            if vgm::pending(fd) {
+                                if let Some(data) = vgm::registered(epfd, fd) {
+                                    let before = vgm::vg().he_calls;
+                                    let res = ev::worker_handle_event(&h.handlers[0], data as u16);
+                                    assert!(res == Some(false), "C11: worker step failed");
+                                    let called = vgm::vg().he_calls == before + 1;
+                                    assert!(called == (rr[k].started && rr[k].enabled), "C11: event handler runs iff the ring is started and enabled");
+                                    if called {
+                                        assert!(vgm::vg().he_event == k as u16 && vgm::vg().he_ring_active, "C11: dispatched for the kicked ring while it is active");
+                                        assert!(!vgm::pending(fd), "C11: the dispatched kick is consumed");
+                                    }
+                                } else {
+                                    // not watched: the kick stays pending (retained for activation)
+                                    assert!(!(rr[k].started && rr[k].enabled), "C11: a kick on the current descriptor of an active ring must reach the worker");
+                                }
+                            }
+                        }
+                        k += 1;
+                    }
+                }
+            }
+            if op != 7 {
+                assert!(vgm::vg().he_calls == he_before, "C11: control messages never invoke the event handler");
+            }
+            // ---- invariant after the step
+            let mut k = 0;
+            while k < 2 {
+                let v = &h.vrings[k];
+                assert!(vr::is_active(v) == (rr[k].started && rr[k].enabled), "C11: started/enabled state follows the protocol");
+                assert!(vr::kick_fd(v) == rr[k].kick, "C11: current kick descriptor");
+                if let Some(fd) = rr[k].kick {
+                    let reg = vgm::registered(epfd, fd);
+                    assert!(reg.is_some() == (rr[k].started && rr[k].enabled), "C11: kick descriptor (also one installed while the ring was already started) is watched by the worker iff the ring is started and enabled");
+                    if let Some(d) = reg {
+                        assert!(d == k as u64, "C17: event id of the ring");
+                    }
+                    // kicks raised while inactive are retained
+                    if !(rr[k].started && rr[k].enabled) && op != 7 {
+                        // nothing consumed them
+                    }
+                }
+                k += 1;
+            }
+            assert!(!vgm::vg().reg_overflow && !vgm::vg().consumed_empty && !vgm::vg().double_close);
+            kani::cover!(rr[q].started && rr[q].enabled && rr[q].kick.is_some(), "witness: the step ends in an active ring with a kick descriptor");
+        } }
+    };
+}
+// @harness props=C11 tier=quick reach=off timeout=1200 mem=24 bound="inductive step set_features_nopf: 2 Mutex rings, every combination of per-ring pre-states (not started / started without kick fd / started with kick fd) x enabled x pending kick, symbolic ring" stubs="Epoll::ctl (ghost interest lists; EEXIST/ENOENT as Ok), EventConsumer::consume, EventNotifier::notify, close/OwnedFd::drop"
+c11_step!(c11_step_set_features_nopf, mk_handler_m, 0);
+// @harness props=C11 tier=quick reach=off timeout=1200 mem=24 bound="inductive step set_kick_new: 2 Mutex rings, every combination of per-ring pre-states (not started / started without kick fd / started with kick fd) x enabled x pending kick, symbolic ring" stubs="Epoll::ctl (ghost interest lists; EEXIST/ENOENT as Ok), EventConsumer::consume, EventNotifier::notify, close/OwnedFd::drop"
+c11_step!(c11_step_set_kick_new, mk_handler_m, 1);
+// @harness props=C11 tier=quick reach=off timeout=1200 mem=24 bound="inductive step set_kick_none: 2 Mutex rings, every combination of per-ring pre-states (not started / started without kick fd / started with kick fd) x enabled x pending kick, symbolic ring" stubs="Epoll::ctl (ghost interest lists; EEXIST/ENOENT as Ok), EventConsumer::consume, EventNotifier::notify, close/OwnedFd::drop"
+c11_step!(c11_step_set_kick_none, mk_handler_m, 2);
+// @harness props=C11 tier=quick reach=off timeout=1200 mem=24 bound="inductive step set_call: 2 Mutex rings, every combination of per-ring pre-states (not started / started without kick fd / started with kick fd) x enabled x pending kick, symbolic ring" stubs="Epoll::ctl (ghost interest lists; EEXIST/ENOENT as Ok), EventConsumer::consume, EventNotifier::notify, close/OwnedFd::drop"
+c11_step!(c11_step_set_call, mk_handler_m, 3);
+// @harness props=C11 tier=quick reach=off timeout=1200 mem=24 bound="inductive step set_enable: 2 Mutex rings, every combination of per-ring pre-states (not started / started without kick fd / started with kick fd) x enabled x pending kick, symbolic ring" stubs="Epoll::ctl (ghost interest lists; EEXIST/ENOENT as Ok), EventConsumer::consume, EventNotifier::notify, close/OwnedFd::drop"
+c11_step!(c11_step_set_enable, mk_handler_m, 4);
+// @harness props=C11 tier=quick reach=off timeout=1200 mem=24 bound="inductive step get_vring_base: 2 Mutex rings, every combination of per-ring pre-states (not started / started without kick fd / started with kick fd) x enabled x pending kick, symbolic ring" stubs="Epoll::ctl (ghost interest lists; EEXIST/ENOENT as Ok), EventConsumer::consume, EventNotifier::notify, close/OwnedFd::drop"
+c11_step!(c11_step_get_vring_base, mk_handler_m, 5);
+// @harness props=C11 tier=quick reach=off timeout=1200 mem=24 bound="inductive step reset_device: 2 Mutex rings, every combination of per-ring pre-states (not started / started without kick fd / started with kick fd) x enabled x pending kick, symbolic ring" stubs="Epoll::ctl (ghost interest lists; EEXIST/ENOENT as Ok), EventConsumer::consume, EventNotifier::notify, close/OwnedFd::drop"
+c11_step!(c11_step_reset_device, mk_handler_m, 6);
+// @harness props=C11 tier=quick reach=off timeout=1200 mem=24 bound="inductive step kick_and_worker: 2 Mutex rings, every combination of per-ring pre-states (not started / started without kick fd / started with kick fd) x enabled x pending kick, symbolic ring" stubs="Epoll::ctl (ghost interest lists; EEXIST/ENOENT as Ok), EventConsumer::consume, EventNotifier::notify, close/OwnedFd::drop"
+c11_step!(c11_step_kick_and_worker, mk_handler_m, 7);
+// @harness props=C11 tier=thorough reach=off timeout=1200 mem=24 bound="inductive step set_kick_new over RwLock rings" stubs="Epoll::ctl (ghost interest lists; EEXIST/ENOENT as Ok), EventConsumer::consume, EventNotifier::notify, close/OwnedFd::drop"
+c11_step!(c11_step_rw_set_kick_new, mk_handler_r, 1);
+// @harness props=C11 tier=thorough reach=off timeout=1200 mem=24 bound="inductive step kick_and_worker over RwLock rings" stubs="Epoll::ctl (ghost interest lists; EEXIST/ENOENT as Ok), EventConsumer::consume, EventNotifier::notify, close/OwnedFd::drop"
+c11_step!(c11_step_rw_kick_and_worker, mk_handler_r, 7);
+// @harness props=C11 tier=thorough reach=off timeout=1200 mem=24 bound="inductive step get_vring_base over RwLock rings" stubs="Epoll::ctl (ghost interest lists; EEXIST/ENOENT as Ok), EventConsumer::consume, EventNotifier::notify, close/OwnedFd::drop"
+c11_step!(c11_step_rw_get_vring_base, mk_handler_r, 5);
 
 // ---------------------------------------------------------------------------------------- C13
 fn va_to_gpa(n: usize) {
